@@ -26,6 +26,63 @@ EXPLANATION = (
     "Does not evaluate any rule equation or decide numeric results.")
 
 
+
+COPY_EXEMPT = {"checked": "per-object flag: a fresh copy is re-checked (rule endpoints normalised) on its first activation"}
+
+
+def context_copy_rule(ck, ix):
+    """Context.from_context (the parameterised copy used by `context('c', n=3)`) carries every field of the original:
+    each attribute __init__ creates reaches the copy through the constructor or through an assignment from the source."""
+    init = ix.func(CO, "Context.__init__")
+    fc = ix.func(CO, "Context.from_context")
+    ck.analysed(fc)
+    fields, via_param = [], {}
+    params = [a.arg for a in init.node.args.args][1:]
+    for a in walk_local(init.node):
+        tgt = a.targets[0] if isinstance(a, ast.Assign) else (a.target if isinstance(a, ast.AnnAssign) else None)
+        if isinstance(tgt, ast.Attribute) and isinstance(tgt.value, ast.Name) and tgt.value.id == "self":
+            fields.append(tgt.attr)
+            val = a.value
+            for nme in ast.walk(val) if val is not None else []:
+                if isinstance(nme, ast.Name) and nme.id in params:
+                    via_param[tgt.attr] = params.index(nme.id)
+    ck.floor("G-EXH", len(fields), 5, "Context fields")
+    ctor = [c for c in walk_local(fc.node) if isinstance(c, ast.Call) and norm(c.func) in ("cls", "Context")]
+    ck.check(len(ctor) == 1, "G-EXH", "Context.from_context|one-constructor-call", fc.loc(), "builds one fresh Context", f"{len(ctor)} constructor calls")
+    if len(ctor) != 1:
+        return
+    defs = defs_of(fc)
+    copyname = None
+    for nm, ds in defs.defs.items():
+        if any(v is ctor[0] for v, k, st in ds):
+            copyname = nm
+    assigned = {}
+    for a in walk_local(fc.node):
+        if isinstance(a, ast.Assign):
+            t = a.targets[0]
+            base = t
+            while isinstance(base, ast.Subscript):
+                base = base.value
+            if isinstance(base, ast.Attribute) and isinstance(base.value, ast.Name) and base.value.id == copyname:
+                assigned.setdefault(base.attr, []).append(a)
+    for F in fields:
+        if F in COPY_EXEMPT:
+            ck.ok("G-EXH", f"Context.from_context|field|{F}", fc.loc(), "exempt: " + COPY_EXEMPT[F])
+            continue
+        ok, how = False, ""
+        if F in via_param and via_param[F] < len(ctor[0].args):
+            arg = ctor[0].args[via_param[F]]
+            roots = defs.roots(arg)
+            ok = f"context.{F}" in roots
+            how = f"constructor argument `{norm(arg)}`"
+        if not ok and F in assigned:
+            for a in assigned[F]:
+                roots = defs.roots(a.value)
+                if f"context.{F}" in roots or (isinstance(a.targets[0], ast.Subscript) and isinstance(a.value, ast.Name) and a.value.id == copyname):
+                    ok, how = True, f"`{norm(a)}`"
+        ck.check(ok, "G-EXH", f"Context.from_context|field|{F}", fc.loc(), f"{F} carried over by {how}",
+                 f"the parameterised copy made by Context.from_context does not receive `{F}` from the original: activating the context with keyword parameters silently loses its {F}")
+
 def run(ck, ix, tier):
     ck.rule("G-TYPESTATE", "a container is used with a single queue discipline")
     # ------------------------------------------------------------ find_shortest_path
@@ -246,4 +303,5 @@ def run(ck, ix, tier):
         kw = {k.arg: norm(k.value) for k in c.keywords}
         ok = kw == {"name": "basedef.name", "defined_symbol": "basedef.symbol", "aliases": "basedef.aliases", "reference": "definition.reference", "converter": "definition.converter"}
         ck.check(ok, "G-PROV", "_redefine|rebuilt-definition-fields", fi.loc(c), "identity from the registry, value from the redefinition", f"rebuilt definition fields are {kw}")
+    context_copy_rule(ck, ix)
     return EXPLANATION
